@@ -74,6 +74,9 @@ InitEvents2 ==
                         [] OTHER -> FALSE
   \/ CEv("eatkill") /\ ContEatKill
   \/ CEv("exit") /\ InitExit
+  \* the exit event is written at the start of Init's deferred function, os.Exit follows: a socket loop of
+  \* the dying process can still report its error in between
+  \/ (CEv("recverr") \/ CEv("senderr")) /\ spc = "dead" /\ UNCHANGED vars
 InitEvents == UNCHANGED <<dz, kz>> /\ InitEvents2
 InitSilent ==
   Sil /\ (\/ ContRLPush \/ ContSLTake \/ ContSendDone \/ ContSendFail
